@@ -12,15 +12,22 @@ Open Scope N_scope.
         evaluation in one piece;
     (B) a complete program cut into chunks of declarations likewise;
     (C) any session in which functions are declared before they are used, redefinitions included,
-        behaves as the contract says: every call runs the current definition. *)
+        behaves as the contract says: every call runs the current definition;
+    (D) any session of steps that mix the entry points (unnamed sources, named files, directories)
+        behaves as the contract says: symbols and imports established by earlier steps of any kind
+        stay visible. *)
 Definition C11_statement : Prop :=
   (forall fuel p c1 c2, prog_ok p = true ->
      ymem (fst (y_run fuel y0 (pieces p c1 c2))) = ymem (fst (y_run fuel y0 [whole p])))
-  /\ (forall fuel cs, forallb (forallb is_decl) cs = true -> ordered (concat cs) = true ->
+  /\ (forall fuel cs, forallb (forallb is_decl) cs = true -> ordered (concat cs) = true -> no_uses (concat cs) = true ->
      ymem (fst (y_run fuel y0 cs)) = ymem (fst (y_run fuel y0 [concat cs])))
   /\ (forall fuel cs, forallb homogeneous cs = true -> uses_defined (concat cs) = true ->
-     inits_indirect (concat cs) = true -> main_last cs = true ->
-     obs_y (y_run fuel y0 cs) = obs_g (g_run fuel g0 cs)).
+     inits_indirect (concat cs) = true -> main_last cs = true -> no_uses (concat cs) = true ->
+     obs_y (y_run fuel y0 cs) = obs_g (g_run fuel g0 cs))
+  /\ (forall fuel l, forallb homogeneous (map step_chunk l) = true -> ordered (concat (map step_chunk l)) = true ->
+     inits_indirect (concat (map step_chunk l)) = true -> main_last (map step_chunk l) = true ->
+     imp_ordered [] (concat (map step_chunk l)) = true ->
+     obs_y (y_steps fuel y0 l) = obs_g (g_run fuel g0 (map step_chunk l))).
 
 (** (A) under the side condition that no initialiser mentions a variable directly
     (all programs, all cuts of declarations and of statements, all call depths). *)
@@ -41,7 +48,7 @@ Print Assumptions C11_any_cut_side_condition_inhabited.
 (** (B) under the side conditions: initialisers indirect, [main] declared in the last chunk. *)
 Theorem C11_complete_program_partial :
   forall fuel cs, forallb (forallb is_decl) cs = true -> ordered (concat cs) = true ->
-    inits_indirect (concat cs) = true -> main_last cs = true ->
+    inits_indirect (concat cs) = true -> main_last cs = true -> no_uses (concat cs) = true ->
     ymem (fst (y_run fuel y0 cs)) = ymem (fst (y_run fuel y0 [concat cs])).
 Proof. exact complete_program_cut. Qed.
 Print Assumptions C11_complete_program_partial.
@@ -58,7 +65,7 @@ Print Assumptions C11_complete_program_side_condition_inhabited.
     same memory and the same value returned by every evaluation. *)
 Theorem C11_session_partial :
   forall fuel cs, forallb homogeneous cs = true -> ordered (concat cs) = true ->
-    inits_indirect (concat cs) = true -> main_last cs = true ->
+    inits_indirect (concat cs) = true -> main_last cs = true -> no_uses (concat cs) = true ->
     obs_y (y_run fuel y0 cs) = obs_g (g_run fuel g0 cs).
 Proof. exact y_session_is_g. Qed.
 Print Assumptions C11_session_partial.
@@ -69,6 +76,24 @@ Theorem C11_session_example :
   /\ out (ymem (fst (y_run 8 y0 redef_cs))) = [10; 2]%Z.
 Proof. exact example_session. Qed.
 Print Assumptions C11_session_example.
+
+(** (D) for steps that are unnamed sources and named files in any order (no directory) and programs
+    that do not call into imported packages: the source name in force does not matter. *)
+Theorem C11_steps_partial :
+  forall fuel l, nodir l = true -> forallb homogeneous (map step_chunk l) = true ->
+    ordered (concat (map step_chunk l)) = true -> inits_indirect (concat (map step_chunk l)) = true ->
+    main_last (map step_chunk l) = true -> no_uses (concat (map step_chunk l)) = true ->
+    obs_y (y_steps fuel y0 l) = obs_g (g_run fuel g0 (map step_chunk l)).
+Proof. exact y_steps_is_g. Qed.
+Print Assumptions C11_steps_partial.
+
+(** imports made and used under one source name stay visible (file first, then unnamed chunks) *)
+Theorem C11_steps_example :
+  imp_ordered [] (concat (map step_chunk impscope_ok_steps)) = true
+  /\ obs_y (y_steps 8 y0 impscope_ok_steps) = obs_g (g_run 8 g0 (map step_chunk impscope_ok_steps))
+  /\ out (ymem (fst (y_steps 8 y0 impscope_ok_steps))) = [5; 2]%Z.
+Proof. exact import_scope_example. Qed.
+Print Assumptions C11_steps_example.
 
 (** Entry points: Eval, Compile+Execute, CompileAST+Execute, EvalPath file by file agree on every
     chunk list from every state (no side condition). *)
@@ -122,6 +147,23 @@ Theorem C11_stale_callee_refuted :
   /\ obs_y (y_run 8 y0 stale_cs) <> obs_g (g_run 8 g0 stale_cs).
 Proof. exact stale_callee_refuted. Qed.
 Print Assumptions C11_stale_callee_refuted.
+
+Theorem C11_import_scope_refuted :
+  nodir impscope_steps = true /\ forallb homogeneous (map step_chunk impscope_steps) = true
+  /\ imp_ordered [] (concat (map step_chunk impscope_steps)) = true
+  /\ snd (y_steps 8 y0 impscope_steps) = [ROk None; ROk None; RUndef]
+  /\ out (gmem (fst (g_run 8 g0 (map step_chunk impscope_steps)))) = [2%Z]
+  /\ obs_y (y_steps 8 y0 impscope_steps) <> obs_g (g_run 8 g0 (map step_chunk impscope_steps)).
+Proof. exact import_scope_refuted. Qed.
+Print Assumptions C11_import_scope_refuted.
+
+Theorem C11_dir_scope_refuted :
+  forallb homogeneous (map step_chunk dirscope_steps) = true /\ ordered (concat (map step_chunk dirscope_steps)) = true
+  /\ snd (y_steps 8 y0 dirscope_steps) = [ROk None; RUndef]
+  /\ out (gmem (fst (g_run 8 g0 (map step_chunk dirscope_steps)))) = [7%Z]
+  /\ obs_y (y_steps 8 y0 dirscope_steps) <> obs_g (g_run 8 g0 (map step_chunk dirscope_steps)).
+Proof. exact dir_scope_refuted. Qed.
+Print Assumptions C11_dir_scope_refuted.
 
 (** The side condition [ordered] is the meaning of "interactive style", not a defect: a forward
     reference across chunks cannot compile. *)
